@@ -15,7 +15,8 @@ ASSUMPTIONS = [
 
 
 def populate(shape, variant=0):
-    """variant 0: every field populated, namespace map shared by the whole tree;
+    """variant 3: attribute / extras values that are not strings;
+    variant 0: every field populated, namespace map shared by the whole tree;
     variant 1: sparse - prefix set but no namespace map, no attributes, no extras, no tail;
     variant 2: only a namespace map (declared at the root) and attributes; no content, prefix, extras"""
     g = gtree.clone(shape)
@@ -27,6 +28,10 @@ def populate(shape, variant=0):
             n["attrs"] = [["k", f"v{i}"], ["k2", "same"]]
             n["extras"] = [["p:e", "w"]]
             n["prefix"] = "p"
+        elif variant == 3:
+            n["attrs"] = [["k", 1000 + i], ["b", True], ["n", None], ["f", 1.5]]
+            n["extras"] = [["p:e", i]]
+            n["content"] = f"c{i}"
         elif variant == 1:
             n["content"] = f"c{i}"
             n["prefix"] = "p"
@@ -53,6 +58,8 @@ def differences(g, path):
     if n["content"] is not None:
         G("content_none", lambda x: x.__setitem__("content", None))
     G("content_empty", lambda x: x.__setitem__("content", ""))
+    long_ = "a long text of words that goes on for quite a while, well beyond any width a log line would be cut at; " * 3
+    G("content_long_differs_at_the_end", lambda x: x.__setitem__("content", long_ + "A"))
     G("tail_other", lambda x: x.__setitem__("tail", "other"))
     if n["tail"] is not None:
         G("tail_none", lambda x: x.__setitem__("tail", None))
@@ -102,6 +109,12 @@ def compound_differences():
         ("attributes/extras (entry moved from attributes to extras)", upd(attrs=[["p:e", "w"]], extras=[]), upd(attrs=[], extras=[["p:e", "w"]])),
         ("content (text vs its repr of None)", upd(content="None"), upd(content=None)),
         ("name (case only)", upd(name="Title"), upd(name="title")),
+        ("content (two long texts that differ in their last character)", upd(content="w" * 400 + "x"), upd(content="w" * 400 + "y")),
+        ("content (two long texts that differ in the middle)", upd(content="w" * 200 + "x" + "w" * 200), upd(content="w" * 200 + "y" + "w" * 200)),
+        ("tail (two long texts that differ in their last character)", upd(tail="w" * 400 + "x"), upd(tail="w" * 400 + "y")),
+        ("attributes (long values that differ in their last character)", upd(attrs=[["k", "v" * 300 + "1"]]), upd(attrs=[["k", "v" * 300 + "2"]])),
+        ("attributes (int 1000 vs str '1000')", upd(attrs=[["k", 1000]]), upd(attrs=[["k", "1000"]])),
+        ("attributes (True vs 1)", upd(attrs=[["k", True]]), upd(attrs=[["k", "True"]])),
     ]
 
 
@@ -276,8 +289,10 @@ def replay(case):
 
 def explore(tier):
     maxn = 6 if tier == "quick" else 8
-    shapes = [populate(s, v) for s in gtree.shapes_upto(maxn) for v in (0, 1, 2)
+    shapes = [populate(s, v) for s in gtree.shapes_upto(maxn) for v in (0, 1, 2, 3)
               if v == 0 or gtree.gsize(s) <= maxn - 1]
+    # beyond the exhaustive bound: deep and wide trees (twin / copy / reload / one difference at the last node)
+    shapes += [dict(populate(sh, 0), scale=label) for label, sh in gtree.scale_shapes() if gtree.gsize(sh) <= 80]
     accs = core.pmap(work, shapes, chunksize=2)
     acc = core.merge_all(accs)
     n = acc.counts.get("pairs", 0)
